@@ -17,6 +17,10 @@ class Unmodelled(Exception):
     pass
 
 
+class OtherShard(Exception):
+    pass
+
+
 class BoundHit(Exception):
     pass
 
@@ -189,7 +193,10 @@ class State:
 class Explorer:
     """re-execution based DFS over decision sequences; counts feasibility queries"""
 
-    def __init__(s, max_paths=200000, fuel=200000):
+    def __init__(s, max_paths=200000, fuel=200000, shard=None, shard_depth=6):
+        s.shard = shard          # (i, n): explore only the paths whose first shard_depth decisions hash to i mod n
+        s.shard_depth = shard_depth
+        s.other_shard = 0
         s.stack = [[]]
         s.paths = 0
         s.aborted = 0
@@ -207,10 +214,15 @@ class Explorer:
             st = State(prefix, s)
             try:
                 r = body(st)
+                if s.shard and len(st.decisions) < s.shard_depth and s.shard[0] != 0:
+                    s.other_shard += 1
+                    continue
                 results.append((st, r))
                 s.paths += 1
             except Abort:
                 s.aborted += 1
+            except OtherShard:
+                s.other_shard += 1
         return results
 
 
@@ -225,6 +237,13 @@ def choose(st, n, conds=None):
             st.ex.stack.append(st.decisions[:st.pos] + [alt])
     st.decisions.append(k)
     st.pos += 1
+    sh = st.ex.shard
+    if sh and st.pos == st.ex.shard_depth:
+        h = 0
+        for d in st.decisions:
+            h = (h * 31 + d + 7) % 1000003
+        if h % sh[1] != sh[0]:
+            raise OtherShard()
     if conds is not None and conds[k] is not None:
         c = conds[k]
         if c is True:
@@ -280,6 +299,7 @@ class Engine:
         self.call_contracts = {}  # call-site path (normalised) -> callable
         self.executed = {}       # fn name -> number of times executed (for the evidence)
         self.models_used = {}
+        self.const_cache = {}
         self.max_depth = 400
         self.depth = 0
 
@@ -444,6 +464,11 @@ class Engine:
         m = re.match(r'^(?:[\w]+::)*(\w+)::(\w+)$', c)
         if m and (m.group(1) in self.lay.enums or m.group(1) in STD_ENUMS):
             return Adt(m.group(1), m.group(2), [])
+        last = c.split('::')[-1]
+        if self.ix.has('const-item ' + last):
+            if last not in self.const_cache:
+                self.const_cache[last] = self.call_fn(st, self.ix.get('const-item ' + last), [])
+            return self.const_cache[last]
         if re.match(r'^[\w:<>{}@ ./#\[\]-]+$', c) and not c[0].isdigit():
             return FnPtr(c)
         raise Unmodelled('const ' + c)
@@ -586,8 +611,8 @@ class Engine:
 
     def rvalue(self, st, fr, rhs):
         if rhs.startswith('&'):
-            m = re.match(r'^&(mut |raw const |raw mut )?(.*)$', rhs)
-            return self.place_ptr(st, fr, parse_place(m.group(2)))
+            m = re.match(r'^&(mut |raw const |raw mut )?(\(fake\) )?(.*)$', rhs)
+            return self.place_ptr(st, fr, parse_place(m.group(3)))
         if rhs.startswith('discriminant('):
             pl = parse_place(rhs[len('discriminant('):-1])
             p = self.place_ptr(st, fr, pl)
@@ -651,8 +676,25 @@ class Engine:
 
     def aggregate(self, st, fr, rhs):
         # Path::<generics>::Variant(args) | Path::Variant { f: x } | Path { f: x } | Path::Variant
-        m = re.match(r'^(.*?)( \{(.*)\}|\((.*)\))?$', rhs, re.S)
-        path = m.group(1)
+        path, grp_kind, grp = rhs, None, None
+        if rhs.endswith(')') or rhs.endswith('}'):
+            close = rhs[-1]
+            opn = '(' if close == ')' else '{'
+            depth = 0
+            i = len(rhs) - 1
+            while i >= 0:
+                c = rhs[i]
+                if c in ')}]' or (c == '>' and rhs[i - 1] not in '-='):
+                    depth += 1
+                elif c in '({[<':
+                    depth -= 1
+                    if depth == 0:
+                        break
+                i -= 1
+            if i > 0 and rhs[i] == opn:
+                path = rhs[:i].rstrip()
+                grp_kind = opn
+                grp = rhs[i + 1:-1]
         # strip generic segments
         segs = []
         for seg in self._path_segments(path):
@@ -660,21 +702,25 @@ class Engine:
                 continue
             segs.append(seg)
         if not segs:
-            raise Unmodelled('aggregate ' + rhs)
-        if rhs.startswith('{closure@') or rhs.startswith('{coroutine'):
-            raise Unmodelled('closure aggregate')
+            segs = ['?']
         last = segs[-1]
         enum = segs[-2] if len(segs) >= 2 else None
         args = None
         named = None
-        if m.group(2):
-            if m.group(2).startswith(' {'):
+        if grp_kind:
+            if grp_kind == '{':
                 named = {}
-                for x in split_top(m.group(3)):
+                for x in split_top(grp):
                     k, v = x.split(': ', 1)
                     named[k.strip()] = self.operand(st, fr, parse_operand(v))
             else:
-                args = [self.operand(st, fr, parse_operand(x)) for x in split_top(m.group(4))]
+                args = [self.operand(st, fr, parse_operand(x)) for x in split_top(grp)]
+        if rhs.startswith('{closure@'):
+            span = rhs[len('{closure@'):rhs.index('}')]
+            fields = list(named.values()) if named else (args or [])
+            return Adt('{closure@' + span + '}', None, fields)
+        if rhs.startswith('{coroutine'):
+            raise Unmodelled('coroutine aggregate')
         if enum and (enum in STD_ENUMS or enum in self.lay.enums):
             vs = STD_ENUMS.get(enum) or self.lay.enums[enum]
             for vn, d, fnames in vs:
@@ -923,6 +969,11 @@ class Engine:
                 if rt and (tr, rt, meth) in ix.traitimpl:
                     return ix.traitimpl[(tr, rt, meth)]
             return None
+        m = re.match(r'^(?:\w+::)*<impl ([\w:]+)(<.*>)?>::(\w+)(::<.*>)?$', fname)
+        if m:
+            key = (m.group(1).split('::')[-1], m.group(3))
+            if key in ix.inherent:
+                return ix.inherent[key]
         segs = [s for s in self._path_segments(fname) if not s.startswith('<')]
         if len(segs) >= 2:
             key = (segs[-2], segs[-1])
@@ -944,6 +995,30 @@ class Engine:
         if isinstance(v, StrV):
             return 'String'
         return None
+
+    def call_closure(self, st, clo, args):
+        """clo: the closure value (Adt '{closure@span}') or a pointer to it"""
+        v = clo
+        hops = 0
+        while isinstance(v, Ptr) and hops < 4:
+            v = self.load(st, v)
+            hops += 1
+        if isinstance(v, FnPtr):
+            target = self.resolve(v.name, args, st)
+            if target is None:
+                raise Unmodelled('call through fn pointer ' + v.name)
+            c = self.contracts.get(target)
+            return c(st, args) if c else self.call_fn(st, self.ix.get(target), args)
+        if not (isinstance(v, Adt) and v.ty.startswith('{closure@')):
+            raise Unmodelled(f'call of non-closure {v!r}')
+        span = v.ty[len('{closure@'):-1]
+        name = self.ix.closures.get(span)
+        if name is None:
+            raise Unmodelled('closure body not found: ' + span)
+        fn = self.ix.get(name)
+        first = fn.arg_types[0] if fn.arg_types else ''
+        recv = Ptr(Cell(v)) if first.startswith('&') else v
+        return self.call_fn(st, fn, [recv] + list(args))
 
     def dispatch(self, st, fr, fname, argv):
         c = self.call_contracts.get(fname)
